@@ -44,3 +44,10 @@ func VerifSelectorOrder(s Selector) []string {
 func VerifGeoDistance(lat1, lon1, lat2, lon2 float64) float64 {
 	return getDistanceFrom(lat1, lon1, lat2, lon2)
 }
+
+// VerifPendingLen returns the number of calls registered as pending on a client.
+func VerifPendingLen(c *Client) int {
+	c.mutex.Lock()
+	defer c.mutex.Unlock()
+	return len(c.pending)
+}
